@@ -215,7 +215,17 @@ func Compile(mods []Stmt, features []string, filter Filter) (res Result) {
 		res.Stage, res.Err = "compile", err.Error()
 		return
 	}
-	res.OK = true
-	res.Dump = schemadump.Dump(ms)
+	// walking the compiled schema through its public API must not panic either: a panic here belongs to this
+	// module set (a violation for the vector), it is not a failure of the harness
+	func() {
+		defer func() {
+			if r := recover(); r != nil {
+				res.Panic = true
+				res.Stage, res.Err = "dump", fmt.Sprintf("panic while walking the compiled schema: %v", r)
+			}
+		}()
+		res.Dump = schemadump.Dump(ms)
+		res.OK = true
+	}()
 	return
 }
